@@ -110,6 +110,8 @@ func execWorld(in, out string) {
 			o.Line("bad-op")
 		case t[0] == "build":
 			o.Line(safely(func() string { w.build(); return "ok" }))
+		case (t[0] == "update" || t[0] == "delete") && w.ps != nil:
+			o.Line(safely(func() string { return w.update(t) }))
 		case w.apply(t):
 			o.Line("ok")
 		case w.ps == nil:
@@ -249,27 +251,55 @@ func oracleWorld(stream, in, out string) {
 	o := wire.Create(out)
 	defer o.Close()
 	var w *world
+	var script [][]string
 	started := false
 	finish := func() {
 		if !started {
 			return
 		}
 		v := safely(func() string {
+			defer func() { w.close() }()
+			nss := append(append([]string{}, nsPool...), "other")
+			var routerNs []string
+			// the case is replayed in order: declarations, build, queries, incremental updates, queries ...
+			for _, t := range script {
+				switch {
+				case t[0] == "build":
+					w.build()
+					if v := w.oracleVis(nss); v != "" {
+						return "vis-" + v
+					}
+				case t[0] == "update" || t[0] == "delete":
+					if w.ps == nil {
+						w.build()
+					}
+					w.update(t)
+					if v := w.oracleVis(nss); v != "" {
+						return "vis-" + v
+					}
+				case w.apply(t):
+				case w.ps == nil:
+				case stream == "scope":
+					if t[0] == "xdsgw" && len(t) == 2 {
+						routerNs = append(routerNs, wire.Dec(t[1]))
+					}
+					if v := w.oracleQuery(t); v != "" {
+						return v
+					}
+				}
+			}
 			if w.ps == nil {
 				w.build()
+				if v := w.oracleVis(nss); v != "" {
+					return "vis-" + v
+				}
 			}
-			defer w.close()
-			nss := append(append([]string{}, nsPool...), "other")
-			if v := w.oracleVis(nss); v != "" {
-				return "vis:" + v
-			}
-			if stream == "scope" {
-				if v := w.oracleScope(); v != "" {
+			if stream == "scope" && len(routerNs) > 0 {
+				if v := w.oracleRouterFiltered(routerNs); v != "" {
 					return v
 				}
-				return w.deferred
 			}
-			return ""
+			return w.deferred
 		})
 		if v == "" {
 			o.Line("OK")
@@ -284,14 +314,11 @@ func oracleWorld(stream, in, out string) {
 			finish()
 			started = true
 			w = newWorld(t)
+			script = nil
 			continue
 		}
 		if w != nil {
-			if t[0] == "scope" || t[0] == "gw" || t[0] == "xds" || t[0] == "xdsgw" || t[0] == "vsgw" || t[0] == "merged" {
-				w.queries = append(w.queries, t)
-			} else {
-				w.apply(t)
-			}
+			script = append(script, t)
 		}
 	}
 	finish()
